@@ -244,7 +244,7 @@ def cfg_of(case, B, pos, high_memory):
             "transcript_strategy": case["transcript_strategy"], "norm": case["norm"],
             "complete_genes": [sorted(pos[g] for g in B["genes_of"].get(nm, [])) for nm in names],
             "complete_transcripts": [sorted(pos[t] for t in B["tr_chr"].get(nm, [])) for nm in names],
-            "merge_order": sorted(range(len(names)), key=lambda i: C02.natural_key(names[i]))}
+            "merge_order": vlib.model_merge_order(names)}
 
 
 def j_chroms(case):
@@ -258,9 +258,10 @@ def req_saving(case, B, high_memory):
 
 
 def req_restart(case, B, files):
+    """`restartRun` on the REAL files: the number of unaligned reads comes from the `_info` bytes (fix cc73ffc)"""
     table, pos, derive = env_of(case, B)
-    return vlib.req("C15.process_saved", table=[G.cps(s) for s in table], derive=derive, cfg=cfg_of(case, B, pos, False),
-                    unmapped=[], names=[G.cps(c["name"]) for c in case["chroms"]], files=files)
+    return vlib.req("C15.restart_run", table=[G.cps(s) for s in table], derive=derive, cfg=cfg_of(case, B, pos, False),
+                    names=[G.cps(c["name"]) for c in case["chroms"]], files=files)
 
 
 # ------------------------------------------------------------------------------------------------
@@ -457,7 +458,7 @@ def compare(case, mo, obs):
 # ------------------------------------------------------------------------------------------------
 # correspondence
 
-def run_case(ctx, case, B, high_memory, keep=None):
+def run_case(ctx, case, B, high_memory, keep=None, old_format=False):
     """one real saving run + one real restart; returns dict(files, errA, errB, outA, outB, root)"""
     root = os.path.join(B["dir"], "case_%s_%d" % (case["id"], int(high_memory)))
     shutil.rmtree(root, ignore_errors=True)
@@ -468,6 +469,16 @@ def run_case(ctx, case, B, high_memory, keep=None):
         names = [c["name"] for c in case["chroms"]]
         res["files"] = read_files(prefix, names)
         res["outB"], res["errB"] = real_restart(case, B, root, prefix)
+        if old_format:
+            # a save folder of the format before fix cc73ffc: `_info` without its last field (4 bytes)
+            with open(prefix + "_info", "rb") as f:
+                data = f.read()
+            with open(prefix + "_info", "wb") as f:
+                f.write(data[:-4])
+            res["files_old"] = read_files(prefix, names)
+            res["outO"], res["errO"] = real_restart(case, B, root, prefix, tag="O")
+            with open(prefix + "_info", "wb") as f:
+                f.write(data)
     return res
 
 
@@ -487,12 +498,14 @@ def correspondence(ctx):
     for case in cases:
         table, pos, derive = env_of(case, B)
         for hm in (False, True):
-            run = run_case(ctx, case, B, hm)
+            run = run_case(ctx, case, B, hm, old_format=(case["id"] % 4 == 0 and not hm))
             run.update(case=case, hm=hm, pos=pos)
             if run["errA"] is None:
                 run["obsA"] = observed(run["outA"], pos)
                 if run["errB"] is None:
                     run["obsB"] = observed(run["outB"], pos)
+                if run.get("files_old") is not None and run["errO"] is None:
+                    run["obsO"] = observed(run["outO"], pos)
             shutil.rmtree(run["root"], ignore_errors=True)
             runs.append(run)
     # phase 2: the model, one driver batch
@@ -501,6 +514,8 @@ def correspondence(ctx):
         reqs.append(req_saving(run["case"], B, run["hm"]))
         if run["files"] is not None:
             reqs.append(req_restart(run["case"], B, run["files"]))
+        if run.get("files_old") is not None:
+            reqs.append(req_restart(run["case"], B, run["files_old"]))
     outs = iter(ctx.driver.run(reqs))
     for run in runs:
         case, hm, pos = run["case"], run["hm"], run["pos"]
@@ -508,6 +523,7 @@ def correspondence(ctx):
         ctx.count("op:saving_run:" + mode)
         mo = next(outs)
         mr = next(outs) if run["files"] is not None else None
+        mold = next(outs) if run.get("files_old") is not None else None
         ctx.evaluations += 1
         ctx.traces_validated += 1
         small = {"case": case["id"], "high_memory": hm, "n_records": case["n_records"]}
@@ -533,6 +549,22 @@ def correspondence(ctx):
         why = compare(case, mo["run"], run["obsA"])
         if why:
             ctx.disagree("saving_run", big, {"why": why}, None)
+        # (4) the restart on a save folder of the older format (`restart_on_old_info_file`)
+        if mold is not None:
+            ctx.count("op:restart_old_info_format")
+            ctx.evaluations += 1
+            ctx.traces_validated += 1
+            if run["errO"] is not None:
+                if not vlib.is_err(mold):
+                    ctx.disagree("restart_old_format", big, "model ran", {"error": run["errO"]})
+            elif vlib.is_err(mold) or (isinstance(mold, dict) and "driver_error" in mold):
+                ctx.disagree("restart_old_format", big, mold, "real restart succeeded")
+            else:
+                why = compare(case, mold, run["obsO"])
+                if why:
+                    ctx.disagree("restart_old_format", big, {"why": why}, None)
+                elif sum(case["unmapped"]) > 0:
+                    ctx.mark_nontrivial(["restart_old_format", case["id"]])
         # (3) the restart on the REAL files
         ctx.count("op:process_saved:" + mode)
         ctx.evaluations += 1
